@@ -13,6 +13,11 @@ Import ListNotations.
 Section Lin.
 Context {St Op Rt : Type}.
 Variable sstep : St -> Op -> Rt -> list St.
+(** [pure o r]: a hint that answering [r] to [o] leaves the specification
+    state unchanged.  Such an operation, once it is minimal and its answer is
+    allowed, is linearized at once instead of being tried in every position
+    (this only prunes the search; soundness does not depend on the hint). *)
+Variable pure : Op -> Rt -> bool.
 
 Record opr := OPR { o_tid : nat; o_inv : nat; o_res : nat; o_op : Op; o_ret : Rt }.
 
@@ -43,6 +48,8 @@ Fixpoint picks {A} (l : list A) : list (A * list A) :=
   | x :: l' => (x, l') :: map (fun yl => (fst yl, x :: snd yl)) (picks l')
   end.
 
+Definition is_nil {A} (l : list A) : bool := match l with [] => true | _ => false end.
+
 Definition minimal (a : opr) (rest : list opr) : bool :=
   forallb (fun b => negb (precedesb b a)) rest.
 
@@ -53,11 +60,17 @@ Fixpoint lin_search (fuel : nat) (s : St) (pend : list opr) (fin : St -> bool) :
       match fuel with
       | O => false
       | S f =>
-          existsb (fun ar =>
+          let try := fun ar =>
                      minimal (fst ar) (snd ar) &&
                      existsb (fun s' => lin_search f s' (snd ar) fin)
-                             (sstep s (o_op (fst ar)) (o_ret (fst ar))))
-                  (picks pend)
+                             (sstep s (o_op (fst ar)) (o_ret (fst ar))) in
+          match find (fun ar => minimal (fst ar) (snd ar)
+                                && pure (o_op (fst ar)) (o_ret (fst ar))
+                                && negb (is_nil (sstep s (o_op (fst ar)) (o_ret (fst ar)))))
+                     (picks pend) with
+          | Some ar => try ar
+          | None => existsb try (picks pend)
+          end
       end
   end.
 
@@ -100,11 +113,16 @@ Proof.
   - destruct pend as [|p0 pend0].
     + cbn in H. exists [], s. repeat split; auto; constructor.
     + remember (p0 :: pend0) as pend. cbn in H. rewrite Heqpend in H. rewrite <- Heqpend in H.
-      assert (H' : existsb (fun ar => minimal (fst ar) (snd ar) &&
+      assert (H' : exists ar, In ar (picks pend) /\ minimal (fst ar) (snd ar) &&
                  existsb (fun s' => lin_search f s' (snd ar) fin)
-                         (sstep s (o_op (fst ar)) (o_ret (fst ar)))) (picks pend) = true).
-      { subst pend. exact H. }
-      clear H. apply existsb_exists in H'. destruct H' as [[a rest] [Hin Hc]]. cbn in Hc.
+                         (sstep s (o_op (fst ar)) (o_ret (fst ar))) = true).
+      { subst pend.
+        match type of H with
+        | (match ?F with _ => _ end) = true => destruct F as [ar|] eqn:EF
+        end.
+        - apply find_some in EF. exists ar. split; [apply EF|exact H].
+        - apply existsb_exists in H. exact H. }
+      clear H. destruct H' as [[a rest] [Hin Hc]]. cbn in Hc.
       apply andb_true_iff in Hc. destruct Hc as [Hmin Hex].
       apply existsb_exists in Hex. destruct Hex as [s' [Hs' Hrec]].
       destruct (IH _ _ _ Hrec) as [l [sf [P [Rs [Rn F]]]]].
